@@ -99,7 +99,7 @@ pub const C01: HistCheck = HistCheck {
     oracles: &[Oracle::Agg, Oracle::Panic],
     cfg: general,
     nontrivial: |f| (f.partial_fills + f.replenishments) >= 1 && f.op_on_touched_order_or_second_match(),
-    rule: "stateful histories (add / match / cancel / price move / quantity amend / price+quantity / replace / read / rebuild through 7 paths; all 7 order types; small and 64-bit-boundary quantity profiles incl. 0) interpreted on a real PriceLevel; after EVERY operation visible/hidden/count/total and the snapshot's figures are compared with the sums over iter_orders() and bounded by everything ever supplied. The histories also contain bulk operations (n add+cancel pairs / n resting orders under fresh ids, n up to ~1030), pairs of amendments moving quantity between two orders, matches whose taker id is a pool id, generators restored at boundary counters, and in half of the runs every Arc the API returns is kept alive. Snapshot figures are checked at snapshot-type reads and at the end of each history. Since rounds 4-5: one order in eight carries a price field different from the level's; every fourth worker runs under a log subscriber that evaluates every tracing event; operations on a sibling level (same price, same ids) are interleaved; read-only calls include Debug formatting and JSON serialization into a writer that fails part-way; Transfer / Revive operations and match sizes ending exactly after the k-th fill of a sweep; statistics are read alternately through a handle taken at creation and a fresh one. The same call sequences are replayed on the library built WITHOUT the verif feature and must give identical results and aggregates (counted under unhooked_build_replay). Non-trivial = the history has a match that partially fills or replenishes an order and a later operation (amend, cancel, move, another match, rebuild) on that same order; distinct = 64-bit hash of the history.",
+    rule: "stateful histories (add / match / cancel / price move / quantity amend / price+quantity / replace / read / rebuild through 7 paths; all 7 order types; small and 64-bit-boundary quantity profiles incl. 0) interpreted on a real PriceLevel; after EVERY operation visible/hidden/count/total and the snapshot's figures are compared with the sums over iter_orders() and bounded by everything ever supplied. The histories also contain bulk operations (n add+cancel pairs / n resting orders under fresh ids, n up to ~1030), pairs of amendments moving quantity between two orders, matches whose taker id is a pool id, generators restored at boundary counters, and in half of the runs every Arc the API returns is kept alive. Snapshot figures are checked at snapshot-type reads and at the end of each history. Since rounds 4-5: one order in eight carries a price field different from the level's; every fourth worker runs under a log subscriber that evaluates every tracing event; operations on a sibling level (same price, same ids) are interleaved; read-only calls include Debug formatting and JSON serialization into a writer that fails part-way; Transfer / Revive operations and match sizes ending exactly after the k-th fill of a sweep; statistics are read alternately through a handle taken at creation and a fresh one. Since round 6: what every content-bearing read-only call returns (snapshot, package, snapshot JSON, text, serde JSON, level data) is decoded again and must equal the live level; one history in seven makes one fixed read-only call after every operation. The same call sequences are replayed on the library built WITHOUT the verif feature and must give identical results and aggregates (counted under unhooked_build_replay). Non-trivial = the history has a match that partially fills or replenishes an order and a later operation (amend, cancel, move, another match, rebuild) on that same order; distinct = 64-bit hash of the history.",
     quick: 200_000,
     thorough: 6_000_000,
     twin_without_reads: false,
@@ -111,7 +111,7 @@ pub const C02: HistCheck = HistCheck {
     oracles: &[Oracle::Account, Oracle::Panic],
     cfg: no_rebuild,
     nontrivial: |f| f.sweep_multi || f.multi_round_same_order || f.second_match_on_partial,
-    rule: "stateful histories as C01 without rebuilds (one transaction-id generator per history); every match result is audited: executed+remaining==requested, is_complete<=>remaining==0, every transaction has quantity>0, the level price, the taker id, a maker resting at that moment (trace-driven model), the opposite side, a never-seen transaction id; lifetime fills of an order <= what it supplied (adjusted by amendments); filled_order_ids == makers that traded and are no longer listed. Plus MatchResult built incrementally (second generator: initial quantity and up to 12 appended transactions summing within it: remaining == initial - sum, is_complete <=> remaining == 0, executed_quantity() == sum after every append). The histories also contain bulk operations (n add+cancel pairs / n resting orders under fresh ids, n up to ~1030), pairs of amendments moving quantity between two orders, matches whose taker id is a pool id, generators restored at boundary counters, and in half of the runs every Arc the API returns is kept alive. Since rounds 4-5: one order in eight carries a price field different from the level's; every fourth worker runs under a log subscriber that evaluates every tracing event; operations on a sibling level (same price, same ids) are interleaved; read-only calls include Debug formatting and JSON serialization into a writer that fails part-way; Transfer / Revive operations and match sizes ending exactly after the k-th fill of a sweep; statistics are read alternately through a handle taken at creation and a fresh one. Appended transaction sequences include exact repetitions of the previous transaction. Call sequences are also replayed on the unhooked build (unhooked_build_replay). Non-trivial = a match that trades >=2 orders or the same order in >=2 rounds, or a second match on a previously partially filled order.",
+    rule: "stateful histories as C01 without rebuilds (one transaction-id generator per history); every match result is audited: executed+remaining==requested, is_complete<=>remaining==0, every transaction has quantity>0, the level price, the taker id, a maker resting at that moment (trace-driven model), the opposite side, a never-seen transaction id; lifetime fills of an order <= what it supplied (adjusted by amendments); filled_order_ids == makers that traded and are no longer listed. Plus MatchResult built incrementally (second generator: initial quantity and up to 12 appended transactions summing within it: remaining == initial - sum, is_complete <=> remaining == 0, executed_quantity() == sum after every append). The histories also contain bulk operations (n add+cancel pairs / n resting orders under fresh ids, n up to ~1030), pairs of amendments moving quantity between two orders, matches whose taker id is a pool id, generators restored at boundary counters, and in half of the runs every Arc the API returns is kept alive. Since rounds 4-5: one order in eight carries a price field different from the level's; every fourth worker runs under a log subscriber that evaluates every tracing event; operations on a sibling level (same price, same ids) are interleaved; read-only calls include Debug formatting and JSON serialization into a writer that fails part-way; Transfer / Revive operations and match sizes ending exactly after the k-th fill of a sweep; statistics are read alternately through a handle taken at creation and a fresh one. Since round 6: what every content-bearing read-only call returns (snapshot, package, snapshot JSON, text, serde JSON, level data) is decoded again and must equal the live level; one history in seven makes one fixed read-only call after every operation. Appended transaction sequences include exact repetitions of the previous transaction. Call sequences are also replayed on the unhooked build (unhooked_build_replay). Non-trivial = a match that trades >=2 orders or the same order in >=2 rounds, or a second match on a previously partially filled order.",
     quick: 200_000,
     thorough: 6_000_000,
     twin_without_reads: false,
@@ -148,7 +148,7 @@ pub const C06: HistCheck = HistCheck {
     oracles: &[Oracle::Term, Oracle::Panic],
     cfg: c06_cfg,
     nontrivial: |f| f.zero_display_at_match || f.three_round_match,
-    rule: "stateful histories with zero quantities allowed (zero-quantity adds, amend-to-0, reserve replenish amount 0, bursts of up to 80 such orders, churn leaving up to ~1030 dead tickets), iceberg/reserve-heavy; every match_order runs under a budget of shared-memory steps derived from the number of resting orders, tickets and replenishment rounds a correct sweep needs (exceeding it = non-termination, detected without wall clock); after each match executed >= min(requested, displayed before) and remaining>0 implies no listed order displays quantity. Since rounds 4-5: one order in eight carries a price field different from the level's; every fourth worker runs under a log subscriber that evaluates every tracing event; operations on a sibling level (same price, same ids) are interleaved; read-only calls include Debug formatting and JSON serialization into a writer that fails part-way; Transfer / Revive operations and match sizes ending exactly after the k-th fill of a sweep; statistics are read alternately through a handle taken at creation and a fresh one. Call sequences are also replayed on the library built WITHOUT the verif feature, where every call must return (wall-clock patience 120 s, confirmed in a fresh process with 300 s) and give identical results (unhooked_build_replay). Non-trivial = a match issued while an order with display 0 and hidden>0 rests, or a match with >=3 replenishments.",
+    rule: "stateful histories with zero quantities allowed (zero-quantity adds, amend-to-0, reserve replenish amount 0, bursts of up to 80 such orders, churn leaving up to ~1030 dead tickets), iceberg/reserve-heavy; every match_order runs under a budget of shared-memory steps derived from the number of resting orders, tickets and replenishment rounds a correct sweep needs (exceeding it = non-termination, detected without wall clock); after each match executed >= min(requested, displayed before) and remaining>0 implies no listed order displays quantity. Since rounds 4-5: one order in eight carries a price field different from the level's; every fourth worker runs under a log subscriber that evaluates every tracing event; operations on a sibling level (same price, same ids) are interleaved; read-only calls include Debug formatting and JSON serialization into a writer that fails part-way; Transfer / Revive operations and match sizes ending exactly after the k-th fill of a sweep; statistics are read alternately through a handle taken at creation and a fresh one. Since round 6: what every content-bearing read-only call returns (snapshot, package, snapshot JSON, text, serde JSON, level data) is decoded again and must equal the live level; one history in seven makes one fixed read-only call after every operation. Call sequences are also replayed on the library built WITHOUT the verif feature, where every call must return (wall-clock patience 120 s, confirmed in a fresh process with 300 s) and give identical results (unhooked_build_replay). Non-trivial = a match issued while an order with display 0 and hidden>0 rests, or a match with >=3 replenishments.",
     quick: 200_000,
     thorough: 6_000_000,
     twin_without_reads: false,
@@ -160,7 +160,7 @@ pub const C07: HistCheck = HistCheck {
     oracles: &[Oracle::Update, Oracle::Panic],
     cfg: c07_cfg,
     nontrivial: |f| f.update_on_touched_order,
-    rule: "stateful histories mixing all five update kinds (present/absent ids, same/other price) with adds, matches and read-only calls; cancel/move must return the model's current order field for field and remove only it; absent id => Ok(None) and identical fingerprint; same-price UpdatePrice => Err and identical fingerprint; same-price amend returns the order now listed (new display for Standard/PostOnly/Iceberg, either for the other four), others untouched; every read-only call leaves the fingerprint (price, aggregates, listing, statistics) unchanged; metamorphic twins, the first and third as *blind* replays of the recorded calls on fresh levels (no observation by the harness between calls): (1) all reads deleted => identical results for every other operation; (3) all reads but the last deleted => the last read returns the same content; (2) the same history with an extra order added and removed again right away (cancel / move / price+quantity / replace to another price) at a generated point must give identical results for every other operation and the same final listing. Since rounds 4-5: one order in eight carries a price field different from the level's; every fourth worker runs under a log subscriber that evaluates every tracing event; operations on a sibling level (same price, same ids) are interleaved; read-only calls include Debug formatting and JSON serialization into a writer that fails part-way; Transfer / Revive operations and match sizes ending exactly after the k-th fill of a sweep; statistics are read alternately through a handle taken at creation and a fresh one. Price moves are also aimed at an order's own price when it differs from the level's. Call sequences are also replayed on the unhooked build (unhooked_build_replay). Non-trivial = an update applied to an order after a partial fill or replenishment.",
+    rule: "stateful histories mixing all five update kinds (present/absent ids, same/other price) with adds, matches and read-only calls; cancel/move must return the model's current order field for field and remove only it; absent id => Ok(None) and identical fingerprint; same-price UpdatePrice => Err and identical fingerprint; same-price amend returns the order now listed (new display for Standard/PostOnly/Iceberg, either for the other four), others untouched; every read-only call leaves the fingerprint (price, aggregates, listing, statistics) unchanged; metamorphic twins, the first and third as *blind* replays of the recorded calls on fresh levels (no observation by the harness between calls): (1) all reads deleted => identical results for every other operation; (3) all reads but the last deleted => the last read returns the same content; (2) the same history with an extra order added and removed again right away (cancel / move / price+quantity / replace to another price) at a generated point must give identical results for every other operation and the same final listing. Since rounds 4-5: one order in eight carries a price field different from the level's; every fourth worker runs under a log subscriber that evaluates every tracing event; operations on a sibling level (same price, same ids) are interleaved; read-only calls include Debug formatting and JSON serialization into a writer that fails part-way; Transfer / Revive operations and match sizes ending exactly after the k-th fill of a sweep; statistics are read alternately through a handle taken at creation and a fresh one. Since round 6: what every content-bearing read-only call returns (snapshot, package, snapshot JSON, text, serde JSON, level data) is decoded again and must equal the live level; one history in seven makes one fixed read-only call after every operation. Price moves are also aimed at an order's own price when it differs from the level's. Call sequences are also replayed on the unhooked build (unhooked_build_replay). Non-trivial = an update applied to an order after a partial fill or replenishment.",
     quick: 160_000,
     thorough: 4_000_000,
     twin_without_reads: true,
@@ -172,7 +172,7 @@ pub const C15: HistCheck = HistCheck {
     oracles: &[Oracle::Stats, Oracle::Panic],
     cfg: c15_cfg,
     nontrivial: |f| f.sweep_multi && f.removals >= 1,
-    rule: "sequential half: stateful histories on a fresh level (positive quantities, no rebuild); after every operation orders_added == adds, orders_removed == successful cancels+moves, quantity_executed == sum of transaction quantities, value_executed == that x level price. Concurrent half: thread programs under the deterministic scheduler (see sched engine). Non-trivial (sequential) = a match trading several orders plus at least one removal. Since rounds 4-5: one order in eight carries a price field different from the level's; every fourth worker runs under a log subscriber that evaluates every tracing event; operations on a sibling level (same price, same ids) are interleaved; read-only calls include Debug formatting and JSON serialization into a writer that fails part-way; Transfer / Revive operations and match sizes ending exactly after the k-th fill of a sweep; statistics are read alternately through a handle taken at creation and a fresh one. Order timestamps include 2^63 and other 64-bit boundaries offset by wall-clock-sized amounts; under the scheduler the figures are read through a handle taken before the program ran and through a fresh one.",
+    rule: "sequential half: stateful histories on a fresh level (positive quantities, no rebuild); after every operation orders_added == adds, orders_removed == successful cancels+moves, quantity_executed == sum of transaction quantities, value_executed == that x level price. Concurrent half: thread programs under the deterministic scheduler (see sched engine). Non-trivial (sequential) = a match trading several orders plus at least one removal. Since rounds 4-5: one order in eight carries a price field different from the level's; every fourth worker runs under a log subscriber that evaluates every tracing event; operations on a sibling level (same price, same ids) are interleaved; read-only calls include Debug formatting and JSON serialization into a writer that fails part-way; Transfer / Revive operations and match sizes ending exactly after the k-th fill of a sweep; statistics are read alternately through a handle taken at creation and a fresh one. Since round 6: what every content-bearing read-only call returns (snapshot, package, snapshot JSON, text, serde JSON, level data) is decoded again and must equal the live level; one history in seven makes one fixed read-only call after every operation. Order timestamps include 2^63 and other 64-bit boundaries offset by wall-clock-sized amounts; under the scheduler the figures are read through a handle taken before the program ran and through a fresh one.",
     quick: 160_000,
     thorough: 5_000_000,
     twin_without_reads: false,
